@@ -222,3 +222,11 @@ func hvCountStdout() int {
 	}
 	return n
 }
+
+func lexTokens(src string) []token.Token {
+	utils.HadError = false
+	t := lexer.NewScanner([]rune(src)).ScanTokens()
+	verifClearEvents()
+	utils.HadError = false
+	return t
+}
